@@ -71,6 +71,10 @@ CHECKS["C20"]=dict(cat="exploration", engine="xplore", design="DESIGN.md §3 C20
    technique="bounded-exhaustive enumeration of (file set x create options x extract options) round trips and of (sub-command template x seed file x damage class) for all 173 sub-command templates of every format family, each executed as a real CLI process and judged by five sound uniform rules against the in-process library view",
    text="Full product of create/extract options on 6-10 file sets (bit-identical round trip, list/info agree with the library); every sub-command x seed x damage class (nonexistent, empty, garbage, truncations, 0xFFFFFFFF fields, 0xFF windows): exit status must be non-zero where the rules demand it and every exit-0 output must exist and parse.",
    note="Trusted: the in-process library oracle for 'parse Ok', process exit codes. No rule is applied where 'what was asked' is ambiguous.")
+CHECKS["C12"]=dict(cat="fault_enumeration", engine="faultfs", design="DESIGN.md §3 C12, §2 E4",
+   technique="exhaustive crash-point and I/O-error enumeration on the real write path: the file-system calls of each write history (ArchiveBuilder::build V1..V4 x destination present/absent x payload; MutableArchive::compact) are recorded with strace, then the history is re-run once per (system call, k) with the process killed before the k-th call (strace inject signal=KILL) and with the k-th call failing with ENOSPC/EIO/EACCES, plus short-write caps via an LD_PRELOAD shim; after every run the destination is compared with its previous bytes and with the expected complete archive",
+   text="Every file-system call that touches the destination directory in every recorded history is a crash point and an error-injection point (1405 faulted runs in thorough); the destination must be byte-identical to its previous content (or absent) or open and read back every expected file; a build that returned Err must have left the previous state. Two fault-free recordings must issue the same call sequence.",
+   note="Trusted: strace as injector/observer, kernel rename atomicity. Process death and I/O errors only (no power-loss block reordering: the code issues no fsync before rename). Temp litter tolerated and counted.")
 PENDING={}
 PENDING["C19"]=dict(cat="model_checking", engine="histbfs", design="DESIGN.md §3 C19",
    technique="(threads) stateless exploration under loom: storm-ffi compiled with hook H1 so its Mutex/LazyLock/thread_local are loom's; 21 scenarios of 2-3 threads x 1-2 C-API calls on shared handles, all interleavings up to preemption bound 2/3, linearizability by differential against every sequential merge of the same calls; (sequential) explicit-state BFS over C-API call histories in forked children against a handle/cursor model and the Rust API",
@@ -109,6 +113,7 @@ def main():
       "engines": [
         {"name":"xplore","path":"/verif/harness/vcore","serves_properties":sorted(k for k,v in CHECKS.items() if v["engine"]=="xplore"),"kind_free_text":"bounded-exhaustive enumerator over finite case spaces with worker subprocesses, crash/hang attribution, deterministic double replay, known-finding matcher"},
         {"name":"histbfs","path":"/verif/harness/props/c06, /verif/harness/props/c08, /verif/harness/props/c19","serves_properties":sorted(k for k,v in CHECKS.items() if v["engine"]=="histbfs"),"kind_free_text":"explicit-state search over the real implementation: states reached by history replay, canonical-key dedup, reference model compared at every transition"},
+        {"name":"faultfs","path":"/verif/harness/props/c12, /verif/faultfs","serves_properties":sorted(k for k,v in CHECKS.items() if v["engine"]=="faultfs"),"kind_free_text":"strace-driven fault injector (kill before / fail the k-th system call) and observer, LD_PRELOAD short-write shim"},
         {"name":"sched","path":"/verif/harness-sched","serves_properties":sorted(k for k,v in CHECKS.items() if v["engine"]=="sched"),"kind_free_text":"loom controlled scheduler with a loom-backed rayon stand-in ([patch.crates-io]) and loom-backed std::sync facade for storm-ffi"},
       ],
       "checks": checks,
